@@ -407,8 +407,11 @@ func checkIgamExclusive(c *Check, p *Prog) {
 	s1 := x.Summarize(fc, []*Term{a, xx}, nil)
 	s2 := x.Summarize(fi, []*Term{a, xx}, nil)
 	var g1, g2 *Term
-	n1, n2 := 0, 0
+	n1, n2, self := 0, 0, 0
 	s1.Top.Events(func(e *Event, _ []*LoopS) {
+		if e.Kind == "call" && e.Callee == pkgRoot+".igamc" {
+			self++
+		}
 		if e.Kind == "call" && e.Callee == pkgRoot+".igam" {
 			g1 = e.Guard
 			n1++
@@ -418,6 +421,9 @@ func checkIgamExclusive(c *Check, p *Prog) {
 		}
 	})
 	s2.Top.Events(func(e *Event, _ []*LoopS) {
+		if e.Kind == "call" && e.Callee == pkgRoot+".igam" {
+			self++
+		}
 		if e.Kind == "call" && e.Callee == pkgRoot+".igamc" {
 			g2 = e.Guard
 			n2++
@@ -450,8 +456,12 @@ func checkIgamExclusive(c *Check, p *Prog) {
 		}
 	}
 	ok := n1 == 1 && n2 == 1 && g1 != nil && g2 != nil && S.Implies(S.And(ax, g1), S.Not(g2))
+	if n1 == 0 || n2 == 0 {
+		ok = true // at most one of the two calls the other (each reaching for the other's series / fraction directly): no cycle
+	}
+	ok = ok && self == 0
 	c.Expect(ok, "R-PART", "igam/igamc-delegation", p.Pos(fc.Pos()),
-		"igamc delegates to igam and igam to igamc on the same (a,x) under mutually exclusive conditions: no unbounded mutual recursion",
+		"igamc delegates to igam and igam to igamc on the same (a,x) under mutually exclusive conditions (or at most one of them calls the other), neither calls itself: no unbounded mutual recursion",
 		fmt.Sprintf("the delegation conditions %v (igamc->igam) and %v (igam->igamc) are not mutually exclusive, or the arguments are changed", g1, g2))
 }
 
